@@ -199,6 +199,23 @@ pub fn scenarios(tier: Tier) -> Vec<LinkScenario<fn() -> Box<dyn Probe>>> {
             }
         }
     }
+    // a sliced message larger than half of the channel budget (reservation and final size must never be
+    // accounted at the same time)
+    for dir in 0..2usize {
+        let mut cfg = LinkCfg::base(
+            &format!("budget 4000, message 2401+1 dir{}", dir),
+            vec![Chan::new(0, Kind::Unordered, 4000, 300)],
+            vec![Chan::new(0, Kind::Unordered, 4000, 300)],
+        );
+        cfg.dt_ms = vec![100];
+        cfg.horizon = 4;
+        cfg.tail = 8;
+        cfg.script = vec![Send { tick: 0, dir, ch: 0, len: 2401 }, Send { tick: 0, dir, ch: 0, len: 1 }];
+        out.push(LinkScenario {
+            cfg,
+            probe: (|| Box::new(UnorderedProbe::new()) as Box<dyn Probe>) as fn() -> Box<dyn Probe>,
+        });
+    }
     out
 }
 
